@@ -32,7 +32,12 @@ requests spelled with `O_PATH` on procfs, the no-follow operations and the unrea
 independence of procfs lookups across failed lookups, final `..` behind spellings of the root, and a FIFO over-mount
 with timed blocking lookups; it also showed two defects of the machinery itself (the `loc` oracle took the directory
 that contains the root for "location unknown"; an interposer's panic left the recorder switched off for the rest of
-the process) and why the harness must be jailed (§7.3).
+the process) and why the harness must be jailed (§7.3).  A third round (variants `e`, `f`, six properties) added the
+lookups and `mkdir_all` of a thread with a private descriptor table, the rename flags under faults and the C API with
+descriptor 0 free; its author for C13 handed in no change at all — every weakening of `remove_all`'s tolerances he tried
+was caught by the project's own 42 racing tests — but conjectured F29, which the racing suite then confirmed.  Two
+changes remain visible only as a broken tie: C02/e needs an attacker who moves the root directory itself (outside the
+property's attacker, who acts on entries of the tree), C12/f is caught with its input by C03 and C05 and by the tie in C12.
 
 """
 outro = """
